@@ -583,8 +583,15 @@ func Names() []*File {
 			{Name: "Inner", Fields: []F{one("v", 1, "int32")}},
 			{Name: "Mid", Fields: []F{one("i", 1, "message", ".verif.nm.Outer.Mid.Inner")}, Nested: []M{{Name: "Inner", Fields: []F{one("w", 1, "string"), mp("mm", 2, "string", "message", ".verif.nm.Outer.Inner")}}}},
 		}}
+	// a field-less "namespace" message whose nested messages (two levels) use reserved names
+	ns := M{Name: "Namespace", Nested: []M{
+		{Name: "Item", Fields: []F{one("get", 1, "string"), one("descriptor", 2, "int32"), rep("range", 3, "uint32"), one("type", 4, "message", ".verif.nm.Namespace.Item")},
+			Oneofs: []string{"has"}},
+		{Name: "Deeper", Nested: []M{{Name: "Leaf", Fields: []F{one("set", 1, "bytes"), mp("clear", 2, "string", "int64"), one("new", 3, "bool")}}}},
+	}}
+	ns.Nested[0].Fields = append(ns.Nested[0].Fields, oo("has", "mutable", 5, "sint32"), oo("has", "interface", 6, "string"))
 	nm := &File{Name: "verif/nm/nm.proto", Pkg: "verif.nm", GoPkg: "nm", Group: "nm", Tags: []string{"names"},
-		Msgs: []M{m, lm, shapes, nest}}
+		Msgs: []M{m, lm, shapes, nest, ns}}
 	return []*File{nm}
 }
 
